@@ -25,7 +25,7 @@ LANGS = ["go", "java", "php", "python", "typescript", "jsonschema", "openapi"]
 
 
 def gen_resolving(rng, depth):
-    g = irgen.IRGen(rng, max_depth=depth, features={"resolving": True})
+    g = irgen.IRGen(rng, max_depth=depth, features={"resolving": True, "twins": 0.35})
     return g, g.schemas()
 
 
